@@ -254,18 +254,23 @@ impl<'a> Gen<'a> {
         }
         if self.p.lists {
             let nl = 1 + self.t.pick(3);
+            // tie mode: all lists share item names and values (x1 = 1, x2 = 2, ... in each)
+            let tie_mode = self.t.chance(1, 3);
             for i in 0..nl {
                 let ni = 2 + self.t.pick(3);
                 let mut items = vec![];
-                let base = self.t.pick(2) as i32;
+                let base = if tie_mode { 0 } else { self.t.pick(2) as i32 };
                 for j in 0..ni {
                     // values overlap across lists (ties), strictly increasing inside a list
                     let v = base + 1 + j as i32 + if self.t.chance(1, 6) { 1 } else { 0 } * j as i32;
-                    items.push((
-                        self.pre(&format!("{}{}", (b'a' + i as u8) as char, j + 1)),
-                        v,
-                        self.t.chance(1, 3),
-                    ));
+                    // item names are sometimes shared between lists (x1, x2, ... in several
+                    // lists): qualified names keep them apart, ties get as tight as possible
+                    let name = if tie_mode || self.t.chance(1, 3) {
+                        self.pre(&format!("x{}", j + 1))
+                    } else {
+                        self.pre(&format!("{}{}", (b'a' + i as u8) as char, j + 1))
+                    };
+                    items.push((name, v, self.t.chance(1, 3)));
                 }
                 // keep values strictly increasing
                 for j in 1..items.len() {
@@ -1313,6 +1318,24 @@ impl<'a> Gen<'a> {
     }
 
     fn list_lit(&mut self) -> Expr {
+        if self.t.chance(1, 4) {
+            // a tie set: every item (of any list) that has one chosen value
+            let l = self.t.pick(self.lists.len());
+            let i = self.t.pick(self.lists[l].items.len());
+            let v = self.lists[l].items[i].1;
+            let mut items = vec![];
+            for ld in &self.lists {
+                for (n, val, _) in &ld.items {
+                    if *val == v {
+                        items.push(format!("{}.{}", ld.name, n));
+                    }
+                }
+            }
+            if self.t.chance(1, 2) {
+                items.reverse();
+            }
+            return Expr::ListLit(items);
+        }
         let n = self.t.pick(4);
         let mut items = vec![];
         for _ in 0..n {
